@@ -227,7 +227,7 @@ def make_case(rng, method, n, order, complex_valued=False):
                 spec = dict(kind='scalar', value=float(10.0 ** rng.uniform(-5, -2.5)))
             u = rng.random()
             x_form = None if u < 0.8 else str(rng.choice(['list', 'tuple'] if shape else ['zero_d', 'np_scalar']))
-            return dict(tree=tree, x=xs, shape=shape, layout=layout, method=method, n=n, order=order, x_form=x_form, fo_later=bool(rng.random() < 0.25),
+            return dict(tree=tree, x=xs, shape=shape, layout=layout, out_form=('zero_d' if (not shape and rng.random() < 0.15) else None), method=method, n=n, order=order, x_form=x_form, fo_later=bool(rng.random() < 0.25),
                         step=spec, cplx=bool(complex_valued), stationary=bool(stationary),
                         int_x=bool(int_x))
     return None
@@ -317,6 +317,11 @@ def run_case(case, ctx, full_output=True):
     tree = X.from_json(case['tree'])
     method, n, order = case['method'], case['n'], case['order']
     f = X.compile_np(tree)
+    if case.get('out_form') == 'zero_d':
+        # the user function hands its value back as a 0-d ndarray (a mutable object) instead of a numpy scalar
+        f0_ = f
+        f = lambda z: np.asarray(f0_(z))
+        ctx.count('function_returns_0d_arrays')
     rec = Recorder(f)
     shape = tuple(case['shape'])
     xs = list(case['x'])
